@@ -98,7 +98,12 @@ class Particle:
             if value.type is not ValueType.ELEMENT or not value.is_array:
                 raise ValueError('{} must be an element array!')
             return [
-                Operator(ele.name, ele.pop('functionName').val_str, copy.deepcopy(dict(ele)))
+                Operator(ele.name, ele.pop('functionName').val_str, {
+                    # The element name is Operator.name, not one of its options.
+                    key: copy.deepcopy(attr)
+                    for key, attr in ele.items()
+                    if key != 'name'
+                })
                 for ele in value.iter_elem()
             ]
 
@@ -123,7 +128,8 @@ class Particle:
             # Everything else.
             options = {
                 value.name.casefold(): copy.deepcopy(value)
-                for value in elem.values()
+                for key, value in elem.items()
+                if key != 'name'  # That is Particle.name.
             }
 
             systems[elem.name.casefold()] = Particle(
